@@ -21,6 +21,7 @@
 
 #  include <unifex/exception.hpp>
 #  include <unifex/scope_guard.hpp>
+#include <unifex/detail/verif_hooks.hpp>
 
 #  include <cstring>
 #  include <system_error>
@@ -164,6 +165,7 @@ void io_epoll_context::run_impl(const bool& shouldStop) {
     // Dequeue and process local queue items (ready to run)
     execute_pending_local();
 
+    UNIFEX_VERIF_YIELD("io.ep.loop");
     if (shouldStop) {
       break;
     }
@@ -221,6 +223,7 @@ void io_epoll_context::schedule_remote(operation_base* op) noexcept {
   UNIFEX_ASSERT(op->enqueued_.load() == 0);
   ++op->enqueued_;
   bool ioThreadWasInactive = remoteQueue_.enqueue(op);
+  UNIFEX_VERIF_YIELD("io.ep.enqueued");
   if (ioThreadWasInactive) {
     // We were the first to queue an item and the I/O thread is not
     // going to check the queue until we signal it that new items
@@ -267,6 +270,7 @@ void io_epoll_context::acquire_completion_queue_items() {
   LOG("epoll_wait()");
 
   epoll_event completions[io_epoll_max_event_count];
+  UNIFEX_VERIF_YIELD("io.ep.wait");
   int result = epoll_wait(
       epollFd_.get(),
       completions,
@@ -304,6 +308,7 @@ void io_epoll_context::acquire_completion_queue_items() {
 
       // Skip processing this item and let the loop check
       // for the remote-queued items next time around.
+      UNIFEX_VERIF_YIELD("io.ep.woken");
       remoteQueueReadSubmitted_ = false;
       continue;
     } else if (completed.data.ptr == timer_user_data()) {
